@@ -465,3 +465,29 @@ pub fn add_child(w: &mut World, rng: &mut Rng, parent: usize, repo: usize, objs:
     for k in 0..objs { let o = gen_object(rng, now, id, &[id], k, 100 + k as u64); w.cas[id].objects.push(o); }
     id
 }
+
+/// Appends a further trust anchor with its own chain of `len + 1` CAs to the world (ids, keys and resource blocks
+/// continue after the existing CAs).
+pub fn add_chain(w: &mut World, rng: &mut Rng, len: usize, objs: usize) -> usize {
+    let now = w.now;
+    let tal = w.tals.len();
+    let first = w.cas.len();
+    w.tals.push(Tal { name: format!("chain{tal}"), root: first, uris: vec![TaState::Good], ta_nb: now - YEAR, ta_na: now + 10 * YEAR });
+    for k in 0..=len {
+        let id = first + k;
+        let this = now - 3600; let next = now + 3 * DAY;
+        w.cas.push(Ca { id, parent: if k == 0 { None } else { Some(id - 1) }, tal, key: (id + 11 * tal) % super::keys::CA_KEYS, repo: id % 2, rrdp: false, extra_blocks: Vec::new(),
+            mft_number: 5, mft_this: this, mft_next: next, mft_ee_nb: this - 60, mft_ee_na: next + DAY, mft_serial: 1, crl_this: this, crl_next: next,
+            point_faults: Vec::new(), fault_target: 0, objects: Vec::new(), unreachable: false, alias_of: None, slash0: false, slash0_families: 0, also_revoked: Vec::new() });
+        if k > 0 {
+            let serial = 10 + w.cas[id - 1].objects.len() as u64;
+            w.cas[id - 1].objects.push(Obj { name: format!("ca{id}.cer"), kind: ObjKind::ChildCa(id), serial, nb: now - 2 * DAY, na: now + 90 * DAY, fault: None, salt: 0 });
+        }
+    }
+    for k in 0..=len {
+        let id = first + k;
+        let blocks = w.blocks(id);
+        for j in 0..objs { let serial = 100 + w.cas[id].objects.len() as u64; let o = gen_object(rng, now, id, &blocks, j, serial); w.cas[id].objects.push(o); }
+    }
+    first
+}
